@@ -40,7 +40,7 @@ func PrintDefineInfosForLlm() {
 			fmt.Println("- file: " + sig.FileName + ":" + strconv.Itoa(sig.Row) + "-" + strconv.Itoa(endRow))
 			fmt.Println("- document: " + sig.Document)
 
-			points := base.MethodCallPoint[sig.Frame+sig.Class+sig.Method]
+			points := base.MethodCallPoint[base.CallGraphKey(sig.Frame, sig.Class, sig.Method)]
 
 			// print cllers start
 			if len(points) == 0 {
@@ -69,7 +69,7 @@ func PrintDefineInfosForLlm() {
 			// print cllers end
 
 			// print cllees start
-			callees := base.MethodCalleePoint[sig.Frame+sig.Class+sig.Method]
+			callees := base.MethodCalleePoint[base.CallGraphKey(sig.Frame, sig.Class, sig.Method)]
 
 			printedCallees := 0
 
@@ -175,7 +175,7 @@ func PrintAllClassesForLlm() {
 }
 
 func sigHasCallPoints(sig base.Sig) bool {
-	key := sig.Frame + sig.Class + sig.Method
+	key := base.CallGraphKey(sig.Frame, sig.Class, sig.Method)
 	return len(base.MethodCallPoint[key]) > 0 || len(base.MethodCalleePoint[key]) > 0
 }
 
@@ -256,7 +256,7 @@ func printLlmNavDetail(target string) {
 		fmt.Println("- file: " + sig.FileName + ":" + strconv.Itoa(sig.Row) + "-" + strconv.Itoa(endRow))
 		fmt.Println("- document: " + sig.Document)
 
-		points := base.MethodCallPoint[sig.Frame+sig.Class+sig.Method]
+		points := base.MethodCallPoint[base.CallGraphKey(sig.Frame, sig.Class, sig.Method)]
 
 		if len(points) == 0 {
 			fmt.Println("- callers: none")
@@ -278,7 +278,7 @@ func printLlmNavDetail(target string) {
 		}
 		fmt.Printf("  - total callers: %d\n", len(points))
 
-		callees := base.MethodCalleePoint[sig.Frame+sig.Class+sig.Method]
+		callees := base.MethodCalleePoint[base.CallGraphKey(sig.Frame, sig.Class, sig.Method)]
 		printedCallees := 0
 
 		if len(callees) > 0 {
